@@ -6,7 +6,8 @@
    set the flag, then close(ch).  One action per step of the code; the window between a sender's
    closed check and its channel send is a state (spc = "send").  Messages are <<sender, index>>. *)
 EXTENDS Integers, Sequences, FiniteSets, TLC
-CONSTANTS Senders, NMsg, K, WithClose
+CONSTANTS Senders, NMsg, K, WithClose,
+          SendRecovers   \* TRUE: the send is recovered (the fixed code: the work is dropped); FALSE: the pinned code (the sender panics)
 VARIABLES mb, chClosed, closed, spc, sidx, rpc, rmsg, done, xpc, panicked, begunAfterClose
 vars == <<mb, chClosed, closed, spc, sidx, rpc, rmsg, done, xpc, panicked, begunAfterClose>>
 M(s, i) == [s |-> s, i |-> i]
@@ -23,8 +24,10 @@ SendCheck(s) ==
   /\ UNCHANGED <<mb, chClosed, closed, rpc, rmsg, done, xpc, panicked>>
 SendDeliver(s) ==
   /\ spc[s] = "send"
-  /\ \/ /\ chClosed /\ panicked' = panicked \cup {s} /\ spc' = [spc EXCEPT ![s] = "dead"]   \* send on closed channel
+  /\ \/ /\ chClosed /\ ~SendRecovers /\ panicked' = panicked \cup {s} /\ spc' = [spc EXCEPT ![s] = "dead"]   \* send on closed channel
         /\ UNCHANGED <<mb, rpc, rmsg, sidx>>
+     \/ /\ chClosed /\ SendRecovers /\ spc' = [spc EXCEPT ![s] = "check"] /\ sidx' = [sidx EXCEPT ![s] = @ + 1]   \* recovered: dropped
+        /\ UNCHANGED <<mb, rpc, rmsg, panicked>>
      \/ /\ ~chClosed /\ Len(mb) < K /\ mb' = Append(mb, M(s, sidx[s]))
         /\ spc' = [spc EXCEPT ![s] = "check"] /\ sidx' = [sidx EXCEPT ![s] = @ + 1]
         /\ UNCHANGED <<rpc, rmsg, panicked>>
